@@ -7,7 +7,7 @@ from ..core import Inconclusive, VERIF
 from .. import slices
 
 MOD = "snapshot::persist::verif_kani_c14"
-ATTR = "#[kani::unwind(%d)]\n"
+ATTR = "#[kani::unwind(%d)]\n#[kani::stub(std::fmt::format, vk_fmt_format_lastpiece)]\n"
 
 
 def persist_lib_rs(tree):
@@ -16,7 +16,9 @@ def persist_lib_rs(tree):
     body = src.split("#[cfg(test)]")[0]
     src, a = re.subn(r"use std::fs::\{self, File\};", "use crate::simfs::fs::{self, File};", src)
     src, b = re.subn(r"use std::path::\{Path, PathBuf\};", "use crate::simfs::path::{Path, PathBuf};", src)
-    if a != 1 or b != 1:
+    src, c = re.subn(r"use std::io::\{Cursor, Write\};", "use crate::simfs::io::{Cursor, Write};", src)
+    src, d = re.subn(r"\bstd::io::Result<", "crate::simfs::io::Result<", src)
+    if a != 1 or b != 1 or c != 1 or d < 1:
         raise Inconclusive("persist.rs: the std::fs / std::path import lines are not in the recognised form")
     if re.search(r"std::fs::|std::path::|OpenOptions|read_dir|tempfile", body.replace("use std::fs::{self, File};", "")
                  .replace("use std::path::{Path, PathBuf};", "")):
@@ -38,14 +40,12 @@ pub mod snapshot {
 %(stats)s
     }
     /// recorder standing in for the importer: reads the snapshot bytes it is given; torn/empty content fails
-    pub fn import_tenant_with_dedup(store: &mut crate::graph::store::GraphStore, mut reader: impl std::io::Read,
+    pub fn import_tenant_with_dedup(store: &mut crate::graph::store::GraphStore, reader: crate::simfs::io::Cursor,
                                     _dedup: &[&str]) -> Result<format::ImportStats, Box<dyn std::error::Error>> {
-        let mut b = [0u8; 1];
-        let n = reader.read(&mut b)?;
-        let id = if n == 0 { crate::simfs::EMPTY } else { b[0] };
+        let id = match reader.first_byte() { Some(b) => b, None => crate::simfs::EMPTY };
         store.imported = Some(id);
         if id == crate::simfs::EMPTY || id == crate::simfs::GARBAGE {
-            return Err(Box::new(std::io::Error::from(std::io::ErrorKind::InvalidData)));
+            return Err(Box::new(crate::simfs::io::Error(3)));
         }
         Ok(format::ImportStats { %(init)s })
     }
@@ -77,7 +77,9 @@ def plan(tier):
     p.functions = ["snapshot::persist::{persist_snapshot,restore_persisted_snapshots,snapshot_dir}"]
     p.assumptions = [
         "slice crate: current src/snapshot/persist.rs with `use std::fs::{self, File}` / `use std::path::{Path, PathBuf}` "
-        "redirected to shims/simfs (function bodies untouched; any other fs API => inconclusive)",
+        "redirected to shims/simfs, likewise `use std::io::{Cursor, Write}` and the `std::io::Result` in signatures (simfs::io: a "
+        "one-byte error code; std::io::Error's vtable recursion does not get through CBMC); function bodies untouched; any "
+        "other fs API => inconclusive",
         "simfs = POSIX contract: names->inodes and contents each have a volatile and a durable state; File::sync_all makes an "
         "inode's content durable, sync_all on the directory makes its entries durable; rename atomic; write_all can tear; every "
         "call is a crash point (symbolic call number); process crash keeps the volatile state, power loss keeps per name either "
